@@ -146,6 +146,7 @@ func checkC16(r *Run) {
 	r.Stats["packages"] = len(p.Repo)
 	r.Rule("C16.R1.boundary", "every WherePrefix argument on the relationship/resource tables ends with the key separator ('->' / ':'), every HasSuffix pattern on relationship keys begins with '->', and Traverser.FilterPrefix is only ever RelationshipPrefix(..)", 8)
 	r.Rule("C16.R2.edges", "resourceTable.NewDelete runs only in DeleteResource/DeleteManyResources and only after deleteIncomingRelationships and deleteOutgoingRelationships succeeded for every id being deleted", 4)
+	r.Rule("C16.R3.self", "the Define* functions refuse source == target before creating (the descendant walk cannot see that cycle)", 2)
 	r.Rule("C16.R3.create", "relationshipTable.NewCreate runs only in DefineRelationship/DefineFromOneToManyRelationships, after validateResourcesExist succeeded for both endpoints and behind 'from is not a descendant of to'; an existing edge yields nil; retrieveDescendants records every child", 8)
 
 	sep, ok := pkgConstString(p, ontPkg, "relationshipKeySep")
@@ -516,6 +517,62 @@ func checkRelationshipCreate(r *Run, p *Prog) {
 			}
 		}
 		r.ObPath("C16.R3.create", "the edge is created only when the source is not a descendant of the target in "+fn.Top().Name, p.Position(cs.Call.Pos()), okC, why2, p2)
+		// the shortest cycle: the descendants of the target do not contain the target, so
+		// source == target must be refused by an explicit comparison whose "equal" edge
+		// leaves the function before the create
+		isSelfAtom := func(atom ast.Expr) (eqMeansTrue bool, ok bool) {
+			be, isBin := ast.Unparen(atom).(*ast.BinaryExpr)
+			if !isBin || (be.Op != token.EQL && be.Op != token.NEQ) {
+				return false, false
+			}
+			role := func(e ast.Expr) string {
+				e = ast.Unparen(e)
+				if o := objOf(fn, e); o != nil {
+					switch o {
+					case from:
+						return "from"
+					case to:
+						return "to"
+					}
+					// range variable over the `to` slice
+					if rng, ok := enclosingLoop(fn, e).(*ast.RangeStmt); ok && rng.Value != nil && objOf(fn, rng.Value) == o && objOf(fn, rng.X) == to {
+						return "to"
+					}
+				}
+				if s, ok := e.(*ast.SelectorExpr); ok {
+					switch s.Sel.Name {
+					case "To":
+						return "to"
+					case "From":
+						return "from"
+					}
+				}
+				return ""
+			}
+			a, b := role(be.X), role(be.Y)
+			if a == "" || b == "" || a == b {
+				return false, false
+			}
+			return be.Op == token.EQL, true
+		}
+		equalEdges := c.EdgesEstablishing(func(atom ast.Expr, val bool) bool {
+			eq, ok := isSelfAtom(atom)
+			return ok && val == eq
+		})
+		selfOK, why3 := len(equalEdges) > 0, "no comparison of the source with the target"
+		var p3 []string
+		if selfOK {
+			var starts []Point
+			for e := range equalEdges {
+				starts = append(starts, Point{e.B.Succs[e.Succ], -1})
+			}
+			q, vis := c.ReachAvoiding(starts, nil, nil)
+			if vis[cp] {
+				selfOK, why3, p3 = false, "the create is reachable although source == target", q.PathTo(cp)
+			}
+			// and every target is compared: in a loop over the targets the comparison is in the loop
+		}
+		r.ObPath("C16.R3.self", "a relationship from a resource to itself is refused in "+fn.Top().Name, p.Position(cs.Call.Pos()), selfOK, why3+" (a self edge is a cycle and makes retrieveDescendants recurse without end)", p3)
 	}
 	// DefineRelationship: an existing edge is a no-op returning nil (err is nil on that path)
 	if def := p.Func(ontPkg, "dagWriter", "DefineRelationship"); def != nil {
